@@ -185,12 +185,17 @@ def skipN (l : Nat) (rest : Bytes) : Res Bytes :=
   else if l > rest.length then .err 0
   else .ok (rest.drop l) 0
 
+/-- `v = uintW(v<<8) | uintW(x)` over the bytes read: big-endian value truncated to `w` bytes at every step -/
+def beDecMod (w : Nat) : Nat → Bytes → Nat
+  | acc, [] => acc
+  | acc, x :: t => beDecMod w ((acc * 256 + x) % 256 ^ w) t
+
 /-- `for i := 0; i < int(l); i++ { x, err = reader.ReadByte() … v = v<<8 | x }` with the value
     truncated to `w` bytes: no iteration when `int(l)` is negative. -/
 def readUintLoop (w l : Nat) (rest : Bytes) : Res (Val × Bytes) :=
   if goInt l < 0 then .ok (.nat 0, rest) 0
   else if l > rest.length then .err 0
-  else .ok (.nat (beDec (rest.take l) % 256 ^ w), rest.drop l) 0
+  else .ok (.nat (beDecMod w 0 (rest.take l)), rest.drop l) 0
 
 /-- `reader.ReadWire(int(l))` on a BufferReader (repaired bounds) -/
 def readWire (l : Nat) (rest : Bytes) : Res (Val × Bytes) :=
